@@ -2,6 +2,7 @@ import SynKitModel.Reactor
 import SynKitProofs.ReactorLemmas
 import SynKitProofs.ReactorHydrogen
 import SynKitProofs.ReactorIso
+import SynKitProofs.ReactorExplicit
 import SynKitProofs.Match
 /-!
 # C03 — every reaction proposed by rule application is a genuine instance of the rule
@@ -14,6 +15,8 @@ template's reactant side `left T` into the substrate on element, charge and bond
 "host hcount ≥ pattern hcount" rule (`IsMono monoSel host (left T) m`), and `glue host T m` the ITS
 that `_glue_graph` returns for `m`.  Orientation (`invert`) is handled by `invert_swaps_sides`:
 a backward application is a forward application of `invert T`.
+The explicit re-match path (`pattern_has_explicit_H = True`) is treated in the section "The
+explicit-hydrogen re-match path" below (`explicit_*`, `fullStatement_explicit_partial`).
 -/
 namespace SynKit.Reactor
 open SynKit.Match
@@ -194,8 +197,9 @@ path: for a well-formed substrate and template, a hydrogen- and charge-balanced 
 rounding, every ITS glued along any list of matches drawn from the exhaustive enumeration (strategy
 `all` uses all of them, `comp`/`bt` sub-lists) meets the three verdicts (a), (b), (c) that
 `reactor.spec` evaluates.  Missing for the full statement: the explicit re-matching path
-(`pattern_has_explicit_H`), which is covered only by the correspondence run — and for which the
-pinned code does *not* meet (b) in general (see the F20-family probe in `harness/props/c03.py`) —
+(`pattern_has_explicit_H`), which is proved separately under a guard (`fullStatement_explicit_partial`
+below) — the pinned code does *not* meet (b) there in general (`explicit_guard_needed_witness`; see
+also the F20-family probe in `harness/props/c03.py`) —
 and the composition with `_explicit_h` (proved separately, under its pairing hypothesis, as
 `explicitH_balance`); templates that are themselves unbalanced pass their imbalance on
 (`glue_balance`, finding F10). -/
@@ -350,5 +354,390 @@ theorem explicitH_spectator_witness :
     migrations exSpectator = some [] ∧
     (explicitH exSpectator).map (fun I' => (I'.ids, hL (I'.attrs 1), hR (I'.attrs 1))) = some ([1], 0, 2) ∧
     hL (exSpectator.attrs 1) = 2 := by decide
+
+/-! ### The explicit-hydrogen re-match path (`pattern_has_explicit_H = True`)
+
+Setting.  The pattern `left T` contains hydrogen atoms bonded to heavy atoms.  `SynReactor.mappings`
+matches the *folded* pattern `hToImplicit (left T)` into the substrate; `nodes` is the list of images
+of such a first match (`[v for _, v in mapping.items()]`).  `_get_explicit_map` makes every hydrogen
+of those atoms an atom (`explicitHost host nodes` = `h_to_explicit` after the `typesGH` defaults) and
+matches the explicit pattern `left T` into that graph again; `m` is any such re-match
+(`IsMono monoSel (explicitHost host nodes) (left T) m`, i.e. any member of the exhaustive
+enumeration by `explicit_rematch_sound`); `glue (explicitHost host nodes) T m` is the ITS
+`_glue_graph` returns for it.
+
+Outcome.  Clauses (a') and (c') hold for *every* re-match.  Clause (b') holds under the decidable
+guard `RematchCovers (explicitHost host nodes) m` — every atom whose hydrogens were expanded is
+matched again — and fails without it (`explicit_guard_needed_witness`,
+`explicit_guard_needed_witness_sites`): an expanded atom the re-match leaves aside keeps the
+substrate's hydrogen count on its product side *and* the explicit hydrogen atoms (findings F20 /
+NEW-B).  The guard is about the re-match, not only about the template: a template atom with a
+positive folded hydrogen count can never be matched back onto its own expanded image (its count
+there is 0), so it is either not re-matched at all (F20: no output) or re-matched elsewhere
+(NEW-B: unbalanced output); but an atom with hydrogen count 0 in the pattern can wander to an
+equivalent site as well. -/
+
+/-- **Explicit path, stage 1** — what `_glue_graph` hands to the re-match is a well-formed graph
+with consistent labels: distinct ids (the new hydrogen ids are fresh), bonds between distinct existing
+atoms, no parallel bonds, positive orders, and on every atom a `typesGH` whose reactant side is the
+atom's own label. -/
+theorem explicit_host_prepared (host : LGraph) (nodes : List Nat) (hH : WFHost host) :
+    HostX (explicitHost host nodes) :=
+  explicitHost_hostX host nodes hH
+
+/-- **Explicit path, stage 2** — the re-matches the exhaustive strategy enumerates are exactly the
+monomorphisms of the explicit pattern into the explicit host (element, charge, bond order, and
+"host hcount ≥ pattern hcount"). -/
+theorem explicit_rematch_sound (host T : LGraph) (nodes : List Nat) (hT : WFTemplate T) (m : Mapping) :
+    m ∈ allMonos monoSel (explicitHost host nodes) (left T) ↔ IsMono monoSel (explicitHost host nodes) (left T) m :=
+  mem_allMonos monoSel _ (left T) (left_wf T hT) m
+
+/-- **C03 (a'), explicit path** — the reactant side of the result is the substrate *up to making the
+expanded hydrogens explicit*: decomposing the glued ITS gives back exactly `h_to_explicit(substrate,
+matched atoms)` (same atoms with element, aromaticity, hydrogen count and charge, same bonds with the
+same orders; the only additions are the hydrogen atoms `h_to_explicit` creates, each taken off its
+heavy atom's count).  No guard. -/
+theorem explicit_left_unchanged (host T : LGraph) (nodes : List Nat) (m : Mapping) (hH : WFHost host)
+    (hT : WFTemplate T) (hm : IsMono monoSel (explicitHost host nodes) (left T) m) :
+    left (glue (explicitHost host nodes) T m) = hostProj (hToExplicit host nodes) := by
+  rw [glue_left_X _ T m (explicitHost_hostX host nodes hH) hT hm, hostProj_explicitHost]
+
+/-- **C03 (b'), explicit path** — under the guard (every expanded atom is matched again) the result
+is exactly as (un)balanced as the template: total hydrogen-count change and total charge change of
+the glued ITS equal those of the template (the explicit hydrogen atoms are atoms on both sides and
+count 0), every atom keeps its element. -/
+theorem explicit_balance (host T : LGraph) (nodes : List Nat) (m : Mapping) (hH : WFHost host)
+    (hT : WFTemplate T) (hm : IsMono monoSel (explicitHost host nodes) (left T) m)
+    (hc : RematchCovers (explicitHost host nodes) m) :
+    (imbalance (glue (explicitHost host nodes) T m)).1 = (imbalance T).1 ∧
+    (imbalance (glue (explicitHost host nodes) T m)).2.1 = (imbalance T).2.1 ∧
+    (imbalance (glue (explicitHost host nodes) T m)).2.2 = true := by
+  have hX := explicitHost_hostX host nodes hH
+  generalize explicitHost host nodes = E at *
+  refine ⟨?_, ?_, ?_⟩
+  · have := glue_sum_X E T m hX hT hm hc
+      (fun tg => numOf (tupGet (tupGet tg 1) 2) - numOf (tupGet (tupGet tg 0) 2))
+      (by intro a; simp [defaultTg, tupGet, tupList])
+      (by
+        intro q h hqh
+        rw [glue_tg_matched_X E T m hX hT hm q h hqh]
+        show (numOf (pyGet (E.attrs h) "hcount" (.num 0)) -
+            (numOf (tgField (T.attrs q) 0 2) - numOf (tgField (T.attrs q) 1 2))) -
+            numOf (pyGet (E.attrs h) "hcount" (.num 0)) =
+          numOf (tgField (T.attrs q) 1 2) - numOf (tgField (T.attrs q) 0 2)
+        ring)
+    exact this
+  · have := glue_sum_X E T m hX hT hm hc
+      (fun tg => numOf (tupGet (tupGet tg 1) 3) - numOf (tupGet (tupGet tg 0) 3))
+      (by intro a; simp [defaultTg, tupGet, tupList])
+      (by
+        intro q h hqh
+        rw [glue_tg_matched_X E T m hX hT hm q h hqh]
+        have hc' := (mono_node E T m hT hm q h hqh).2
+        have : numOf (pyGet (E.attrs h) "charge" (.num 0)) = numOf (tgField (T.attrs q) 0 3) := by
+          rw [numOf_pyGet_zero, hc']
+        show numOf (tgField (T.attrs q) 1 3) - numOf (pyGet (E.attrs h) "charge" (.num 0)) =
+          numOf (tgField (T.attrs q) 1 3) - numOf (tgField (T.attrs q) 0 3)
+        rw [this])
+    exact this
+  · unfold imbalance
+    simp only [List.all_eq_true, decide_eq_true_eq]
+    intro p hp
+    obtain ⟨hid, hat⟩ := glue_nodes_attrs_X E T m hX.1.1 p hp
+    rw [hat]
+    cases hpre : preimage m p.1 with
+    | none =>
+      have hpn : (p.1, E.attrs p.1) ∈ E.nodes := attrs_mem E p.1 hid
+      unfold tgField
+      rw [glue_tg_unmatched_X E T m p.1 hid hpre (hc _ hpn hpre)]
+      simp [defaultTg, tupGet, tupList]
+    | some q =>
+      unfold tgField
+      rw [glue_tg_matched_X E T m hX hT hm q p.1 (preimage_mem m p.1 q hpre)]
+      simp [tupGet, tupList]
+
+/-- (b') as a verdict: a balanced template gives balanced results on the explicit path, under the
+guard. -/
+theorem explicit_balanced (host T : LGraph) (nodes : List Nat) (m : Mapping) (hH : WFHost host)
+    (hT : WFTemplate T) (hm : IsMono monoSel (explicitHost host nodes) (left T) m)
+    (hc : RematchCovers (explicitHost host nodes) m) (hb : (imbalance T).1 = 0 ∧ (imbalance T).2.1 = 0) :
+    specB (glue (explicitHost host nodes) T m) = true := by
+  obtain ⟨h1, h2, h3⟩ := explicit_balance host T nodes m hH hT hm hc
+  unfold specB
+  rw [decide_eq_true_eq]
+  rw [hb.1] at h1; rw [hb.2] at h2
+  exact Prod.ext h1 (Prod.ext h2 h3)
+
+/-- **C03 (c'), explicit path** — the changed bonds of the result are the `m`-image of the
+template's (an explicit hydrogen atom of the template is an atom like any other):
+1. every template bond has an image bond in the result with the same order change;
+2. every bond of the result is such an image or a bond of the explicit host (a substrate bond or a
+   bond to an expanded hydrogen) that is the image of no template bond and keeps its order;
+3. a matched atom has the template atom's element and hydrogen-count change;
+4. under the guard, an atom outside the re-match keeps its hydrogen count.
+Clauses 1–3 need no guard. -/
+theorem explicit_rc_image (host T : LGraph) (nodes : List Nat) (m : Mapping) (hH : WFHost host)
+    (hT : WFTemplate T) (hm : IsMono monoSel (explicitHost host nodes) (left T) m)
+    (hr : RoundExact (explicitHost host nodes) T m) :
+    (∀ te ∈ T.edges, ∃ e ∈ (glue (explicitHost host nodes) T m).edges,
+      landsOn m te e.1 e.2.1 = true ∧ delta e.2.2 = delta te.2.2) ∧
+    (∀ e ∈ (glue (explicitHost host nodes) T m).edges,
+      (∃ te ∈ T.edges, landsOn m te e.1 e.2.1 = true ∧ delta e.2.2 = delta te.2.2) ∨
+      (delta e.2.2 = 0 ∧ ordAt e.2.2 0 = ordAt e.2.2 1 ∧ ∀ te ∈ T.edges, landsOn m te e.1 e.2.1 = false)) ∧
+    (∀ q h, (q, h) ∈ m →
+      tgField ((glue (explicitHost host nodes) T m).attrs h) 0 0 = tgField (T.attrs q) 0 0 ∧
+      hR ((glue (explicitHost host nodes) T m).attrs h) - hL ((glue (explicitHost host nodes) T m).attrs h) =
+        hR (T.attrs q) - hL (T.attrs q)) ∧
+    (RematchCovers (explicitHost host nodes) m →
+      ∀ h ∈ (explicitHost host nodes).ids, preimage m h = none →
+        hR ((glue (explicitHost host nodes) T m).attrs h) = hL ((glue (explicitHost host nodes) T m).attrs h)) := by
+  have hX := explicitHost_hostX host nodes hH
+  generalize explicitHost host nodes = E at *
+  refine ⟨glue_edge_image E T m hT hm hr, glue_edges_classified E T m hT hr,
+    fun q h hqh => glue_node_labels_X E T m hX hT hm q h hqh, ?_⟩
+  intro hc h hh hpre
+  unfold hR hL tgField
+  rw [glue_tg_unmatched_X E T m h hh hpre (hc _ (attrs_mem E h hh) hpre)]
+  simp [defaultTg, tupGet, tupList]
+
+/-- **C03 (c'), explicit path, in the form of the specification** — the labelled graph of changed
+bonds of the result is isomorphic to that of the template; the isomorphism is the re-match.  No
+guard: every end atom of a changed bond is matched. -/
+theorem explicit_rc_iso (host T : LGraph) (nodes : List Nat) (m : Mapping) (hH : WFHost host)
+    (hT : WFTemplate T) (hm : IsMono monoSel (explicitHost host nodes) (left T) m)
+    (hr : RoundExact (explicitHost host nodes) T m) :
+    ∃ m', IsIso chgSel (labelledChanges (glue (explicitHost host nodes) T m)) (labelledChanges T) m' :=
+  glue_lc_iso_X _ T m (explicitHost_hostX host nodes hH) hT hm hr
+
+/-- (c') as the verdict `specC` of `reactor.spec`. -/
+theorem explicit_specC (host T : LGraph) (nodes : List Nat) (m : Mapping) (hH : WFHost host)
+    (hT : WFTemplate T) (hm : IsMono monoSel (explicitHost host nodes) (left T) m)
+    (hr : RoundExact (explicitHost host nodes) T m) :
+    specC (glue (explicitHost host nodes) T m) T = true := by
+  unfold specC
+  exact (isoDecide_iff chgSel _ _ (lc_wf T hT.1)).2 (explicit_rc_iso host T nodes m hH hT hm hr)
+
+/-- **C03 (a'), explicit path, as the verdict `specA` of `reactor.spec`** — after hydrogen
+normalisation (hydrogen atoms with a heavy neighbour folded into its count) the reactant side of the
+result *is* the substrate: `h_to_explicit` preserves the total hydrogen content of every heavy atom and
+the heavy-atom structure.  `WholeH`: the substrate's hydrogen counts are whole numbers and its
+hydrogen atoms carry none (true of every `smiles_to_graph` output).  No guard on the re-match. -/
+theorem explicit_specA_verdict (host T : LGraph) (nodes : List Nat) (m : Mapping) (hH : WFHost host)
+    (hw : WholeH host) (hT : WFTemplate T) (hm : IsMono monoSel (explicitHost host nodes) (left T) m) :
+    specA host (glue (explicitHost host nodes) T m) = true := by
+  unfold specA
+  rw [glue_left_X _ T m (explicitHost_hostX host nodes hH) hT hm, normH_hostProj,
+    normH_explicitHost host nodes hH hw]
+  exact sameLabelled_refl _
+
+/-- **Why a folded hydrogen count in an explicit pattern defeats the re-match (F20).**  In the
+explicit host every atom of the first match has hydrogen count 0 (all its hydrogens are atoms), so a
+re-match can send a template atom `q` onto an atom `v` of the first match only if `q` carries no
+positive folded count.  A template atom that has explicit hydrogen neighbours *and* a positive count
+(or any positive count, in a pattern with explicit hydrogens) is therefore never matched back onto its
+own image: it is not re-matched at all (no output, F20) or re-matched onto an unexpanded atom
+(unbalanced output, NEW-B, `explicit_guard_needed_witness`). -/
+theorem explicit_folded_count_not_rematched (host T : LGraph) (nodes : List Nat) (m : Mapping)
+    (hH : WFHost host) (hT : WFTemplate T) (hm : IsMono monoSel (explicitHost host nodes) (left T) m)
+    (q v : Nat) (hqv : (q, v) ∈ m) (hv : v ∈ nodes) :
+    numOf (tgField (T.attrs q) 0 2) ≤ 0 := by
+  have hq : q ∈ T.ids := by
+    rw [← left_ids T hT, ← hm.1]; exact List.mem_map.2 ⟨(q, v), hqv, rfl⟩
+  obtain ⟨hvE, hok⟩ := hm.2.2.1 (q, v) hqv
+  have hz := explicitHost_count_zero host nodes hH _ (attrs_mem _ v hvE) hv
+  simp only [nodeOk, monoSel, Bool.not_true, Bool.false_or, Bool.and_eq_true, decide_eq_true_eq] at hok
+  have h2 := hok.2
+  rw [hcountOf_eq, hcountOf_eq, left_attrs_hcount T hT q hq] at h2
+  rw [numOf_pyGet_zero] at hz
+  simp only at hz
+  omega
+
+/-- **The guard read on the substrate**: it holds as soon as every atom of the first match that
+carries hydrogens in the substrate is in the image of the re-match — in particular whenever the
+re-match extends the first match. -/
+theorem explicit_guard_from_substrate (host : LGraph) (nodes : List Nat) (m : Mapping) (hH : WFHost host)
+    (h : ∀ v ∈ nodes, 0 < numOf (pyGet (host.attrs v) "hcount" (.num 0)) → v ∈ m.map (·.2)) :
+    RematchCovers (explicitHost host nodes) m :=
+  rematchCovers_of_expanded_matched host nodes m hH h
+
+/-- **C03 (b'), explicit path followed by `_explicit_h`** (a template whose un-removable hydrogens
+stay atoms while others are folded with pair ids, `explicit_h=True`): the glued ITS has the template's
+balance (`explicit_balance`), and `_explicit_h` then only moves hydrogens between counts and new
+hydrogen atoms (`explicitH_balance`, under its pairing hypotheses on the glued ITS). -/
+theorem explicit_balance_explicitH (host T : LGraph) (nodes : List Nat) (m : Mapping) (hH : WFHost host)
+    (hT : WFTemplate T) (hm : IsMono monoSel (explicitHost host nodes) (left T) m)
+    (hc : RematchCovers (explicitHost host nodes) m) (I' : LGraph)
+    (h : explicitH (glue (explicitHost host nodes) T m) = some I')
+    (hw : ∀ n ∈ affected (glue (explicitHost host nodes) T m), TgWF ((glue (explicitHost host nodes) T m).attrs n))
+    (hcons : ∀ n ∈ affected (glue (explicitHost host nodes) T m),
+      2 * ((affected (glue (explicitHost host nodes) T m)).count n : Int) = |dOf (glue (explicitHost host nodes) T m) n|)
+    (hbal : componentsBalanced (glue (explicitHost host nodes) T m) = true) :
+    ((imbalance (glue (explicitHost host nodes) T m)).1 = (imbalance T).1 ∧
+     (imbalance (glue (explicitHost host nodes) T m)).2.1 = (imbalance T).2.1 ∧
+     (imbalance (glue (explicitHost host nodes) T m)).2.2 = true) ∧
+    ∃ ms, migrations (glue (explicitHost host nodes) T m) = some ms ∧
+      I'.ids = (glue (explicitHost host nodes) T m).ids ++
+        (newHNodes (nextId (glue (explicitHost host nodes) T m)) ms).map (·.1) ∧
+      ∀ n ∈ (glue (explicitHost host nodes) T m).ids,
+        hL (I'.attrs n) + 2 * cntSrc ms n = hL ((glue (explicitHost host nodes) T m).attrs n) ∧
+        hR (I'.attrs n) + 2 * cntDst ms n = hR ((glue (explicitHost host nodes) T m).attrs n) :=
+  ⟨explicit_balance host T nodes m hH hT hm hc, explicitH_balance _ I' h hw hcons hbal⟩
+
+/-- **C03 for the explicit re-match path (`_partial`)** — `C03.FullStatement` holds of the model's
+explicit path under a decidable guard: for a well-formed substrate with whole hydrogen counts, a
+well-formed hydrogen- and charge-balanced template, any list `nodes` of first-match images and any list
+of re-matches drawn from the exhaustive enumeration on `explicitHost host nodes` that satisfy exact
+rounding and the guard `RematchCovers` (every expanded atom is matched again), every ITS
+`_glue_graph` returns meets the three verdicts (a), (b), (c) of `reactor.spec`.  What is missing for
+the full statement: the guard is necessary for (b) (`explicit_guard_needed_witness`,
+`explicit_guard_needed_witness_sites`: on the pinned code the re-match does leave expanded atoms
+aside — findings F20/NEW-B — and those outputs are unbalanced); (a) and (c) hold without it
+(`explicit_specA_verdict`, `explicit_specC`); unbalanced templates pass their imbalance on
+(`explicit_balance`, F10); the composition with `_explicit_h` is per stage
+(`explicit_balance_explicitH`). -/
+theorem fullStatement_explicit_partial :
+    ∀ host T : LGraph, WFHost host → WholeH host → WFTemplate T →
+      ((imbalance T).1 = 0 ∧ (imbalance T).2.1 = 0) →
+      ∀ (nodes : List Nat) (ms : List Mapping),
+        (∀ m ∈ ms, m ∈ allMonos monoSel (explicitHost host nodes) (left T) ∧
+          RoundExact (explicitHost host nodes) T m ∧ RematchCovers (explicitHost host nodes) m) →
+        ∀ its ∈ explicitResults host T nodes ms,
+          specA host its = true ∧ specB its = true ∧ specC its T = true := by
+  intro host T hH hw hT hb nodes ms hms its hits
+  obtain ⟨m, hmem, rfl⟩ := List.mem_map.1 hits
+  obtain ⟨hall, hr, hc⟩ := hms m hmem
+  have hm := (explicit_rematch_sound host T nodes hT m).1 hall
+  exact ⟨explicit_specA_verdict host T nodes m hH hw hT hm,
+    explicit_balanced host T nodes m hH hT hm hc hb,
+    explicit_specC host T nodes m hH hT hm hr⟩
+
+/-! ### Non-vacuity on the explicit path: the substitution of the implicit example with the migrating
+hydrogen written as an atom (N–H + C–Br → N–C + H–Br) -/
+
+/-- Template: N(10)–H(13) breaks, N(10)–C(11) forms, C(11)–Br(12) breaks, Br(12)–H(13) forms; no
+hydrogen is folded into a count. -/
+def exTX : LGraph :=
+  { nodes := [(10, [("typesGH", .tup [.tup [.str "N", .bool false, .num 0, .num 0, .tup []],
+                                       .tup [.str "N", .bool false, .num 0, .num 0, .tup []]])]),
+              (11, [("typesGH", .tup [.tup [.str "C", .bool false, .num 0, .num 0, .tup []],
+                                       .tup [.str "C", .bool false, .num 0, .num 0, .tup []]])]),
+              (12, [("typesGH", .tup [.tup [.str "Br", .bool false, .num 0, .num 0, .tup []],
+                                       .tup [.str "Br", .bool false, .num 0, .num 0, .tup []]])]),
+              (13, [("typesGH", .tup [.tup [.str "H", .bool false, .num 0, .num 0, .tup []],
+                                       .tup [.str "H", .bool false, .num 0, .num 0, .tup []]])])]
+    edges := [(10, 13, [("order", .tup [.num 2, .num 0]), ("standard_order", .num 2)]),
+              (10, 11, [("order", .tup [.num 0, .num 2]), ("standard_order", .num (-2))]),
+              (11, 12, [("order", .tup [.num 2, .num 0]), ("standard_order", .num 2)]),
+              (12, 13, [("order", .tup [.num 0, .num 2]), ("standard_order", .num (-2))])] }
+
+/-- Images of the first match (N, C, Br of `exHost`), in the order of the folded pattern. -/
+def exNodes : List Nat := [3, 1, 2]
+
+/-- The re-match: N, C, Br as before, the template's hydrogen onto the first expanded hydrogen of N. -/
+def exMX : Mapping := [(10, 3), (11, 1), (12, 2), (13, 4)]
+
+example : WFTemplate exTX := by decide
+
+/-- The pattern has an explicit X–H bond, the folded pattern has exactly one match in `exHost`, and
+its images are `exNodes`. -/
+example : hasXH (left exTX) = true ∧
+    allMonos monoSel exHost (hToImplicit (left exTX)) = [[(10, 3), (11, 1), (12, 2)]] := by decide
+
+/-- The explicit host: the five hydrogens of N and C have become the atoms 4–8. -/
+example : (explicitHost exHost exNodes).ids = [1, 2, 3, 4, 5, 6, 7, 8] ∧
+    (explicitHost exHost exNodes).edges.map (fun e => (e.1, e.2.1)) = [(1, 2), (3, 4), (3, 5), (1, 6), (1, 7), (1, 8)] := by
+  decide
+
+theorem exMonoX : IsMono monoSel (explicitHost exHost exNodes) (left exTX) exMX :=
+  (isMonoB_iff _ _ _ _).1 (by decide)
+
+example : RematchCovers (explicitHost exHost exNodes) exMX := by decide
+example : RoundExact (explicitHost exHost exNodes) exTX exMX := by decide
+
+/-- All hypotheses of the explicit-path theorems hold on the example, four bonds change, and the
+verdicts of the specification are met — by evaluation of the model. -/
+example : (labelledChanges (glue (explicitHost exHost exNodes) exTX exMX)).edges.length = 4 ∧
+    imbalance exTX = (0, 0, true) ∧
+    specA exHost (glue (explicitHost exHost exNodes) exTX exMX) = true ∧
+    specB (glue (explicitHost exHost exNodes) exTX exMX) = true ∧
+    specC (glue (explicitHost exHost exNodes) exTX exMX) exTX = true := by decide
+
+example : left (glue (explicitHost exHost exNodes) exTX exMX) = hostProj (hToExplicit exHost exNodes) :=
+  explicit_left_unchanged exHost exTX exNodes exMX (by decide) (by decide) exMonoX
+
+example : specB (glue (explicitHost exHost exNodes) exTX exMX) = true :=
+  explicit_balanced exHost exTX exNodes exMX (by decide) (by decide) exMonoX (by decide) (by decide)
+
+/-- `fullStatement_explicit_partial` is not vacuous: on the example the exhaustive re-match returns two
+embeddings (the template's hydrogen onto either hydrogen of N), both satisfy the guard and exact
+rounding, and the substrate has whole hydrogen counts. -/
+example : WholeH exHost ∧
+    allMonos monoSel (explicitHost exHost exNodes) (left exTX) = [exMX, [(10, 3), (11, 1), (12, 2), (13, 5)]] ∧
+    (∀ m ∈ allMonos monoSel (explicitHost exHost exNodes) (left exTX),
+      RoundExact (explicitHost exHost exNodes) exTX m ∧ RematchCovers (explicitHost exHost exNodes) m) ∧
+    (explicitResults exHost exTX exNodes (allMonos monoSel (explicitHost exHost exNodes) (left exTX))).length = 2 := by
+  decide
+
+example : numOf (tgField (exTX.attrs 10) 0 2) ≤ 0 :=
+  explicit_folded_count_not_rematched exHost exTX exNodes exMX (by decide) (by decide) exMonoX 10 3 (by decide) (by decide)
+
+/-! ### The guard cannot be dropped -/
+
+/-- Two bromomethanes (C1–Br2, C4–Br5) and one amine (N3). -/
+def exHost2 : LGraph :=
+  { nodes := [(1, [("element", .str "C"), ("hcount", .num 6), ("charge", .num 0)]),
+              (2, [("element", .str "Br"), ("hcount", .num 0), ("charge", .num 0)]),
+              (3, [("element", .str "N"), ("hcount", .num 4), ("charge", .num 0)]),
+              (4, [("element", .str "C"), ("hcount", .num 6), ("charge", .num 0)]),
+              (5, [("element", .str "Br"), ("hcount", .num 0), ("charge", .num 0)])]
+    edges := [(1, 2, [("order", .num 2)]), (4, 5, [("order", .num 2)])] }
+
+/-- A re-match that moves to the second bromomethane although the first one was expanded. -/
+def exMW : Mapping := [(10, 3), (11, 4), (12, 5), (13, 6)]
+
+/-- **The guard of (b') cannot be dropped (NEW-B)**, even for a template without any folded hydrogen:
+the first match `N3, C1, Br2` expands C1; the exhaustive re-match also returns the embedding onto the
+*other* bromomethane; C1 then keeps `typesGH = (0 | 3 H)` and its three explicit hydrogens, so the
+result gains three hydrogens (6 half-units) although the template is balanced.  Clauses (a') and (c')
+still hold, as proved. -/
+theorem explicit_guard_needed_witness_sites :
+    WFHost exHost2 ∧ WFTemplate exTX ∧ imbalance exTX = (0, 0, true) ∧
+    [(10, 3), (11, 1), (12, 2)] ∈ allMonos monoSel exHost2 (hToImplicit (left exTX)) ∧
+    exMW ∈ allMonos monoSel (explicitHost exHost2 exNodes) (left exTX) ∧
+    ¬ RematchCovers (explicitHost exHost2 exNodes) exMW ∧
+    imbalance (glue (explicitHost exHost2 exNodes) exTX exMW) = (6, 0, true) ∧
+    specB (glue (explicitHost exHost2 exNodes) exTX exMW) = false ∧
+    specA exHost2 (glue (explicitHost exHost2 exNodes) exTX exMW) = true ∧
+    specC (glue (explicitHost exHost2 exNodes) exTX exMW) exTX = true := by decide
+
+/-- `exTX` plus a spectator water O(14) whose two hydrogens are folded into its count (the F20
+shape: a pattern with explicit hydrogens in which an atom also carries a positive folded count). -/
+def exTW : LGraph :=
+  { exTX with nodes := exTX.nodes ++
+      [(14, [("typesGH", .tup [.tup [.str "O", .bool false, .num 4, .num 0, .tup []],
+                                .tup [.str "O", .bool false, .num 4, .num 0, .tup []]])])] }
+
+/-- Bromomethane, amine and two waters (O4, O5). -/
+def exHost3 : LGraph :=
+  { nodes := [(1, [("element", .str "C"), ("hcount", .num 6), ("charge", .num 0)]),
+              (2, [("element", .str "Br"), ("hcount", .num 0), ("charge", .num 0)]),
+              (3, [("element", .str "N"), ("hcount", .num 4), ("charge", .num 0)]),
+              (4, [("element", .str "O"), ("hcount", .num 4), ("charge", .num 0)]),
+              (5, [("element", .str "O"), ("hcount", .num 4), ("charge", .num 0)])]
+    edges := [(1, 2, [("order", .num 2)])] }
+
+/-- **The guard cannot be dropped (F20 family)**: the first match sends the water of the pattern to
+O4; all hydrogens of O4 are expanded, so O4 no longer passes "host hcount ≥ 2 H" and *every*
+re-match goes to the other water O5; O4 keeps `typesGH = (0 | 2 H)` plus two explicit hydrogens and
+each result of this first match gains two hydrogens (4 half-units). -/
+theorem explicit_guard_needed_witness :
+    WFHost exHost3 ∧ WFTemplate exTW ∧ imbalance exTW = (0, 0, true) ∧
+    [(10, 3), (11, 1), (12, 2), (14, 4)] ∈ allMonos monoSel exHost3 (hToImplicit (left exTW)) ∧
+    allMonos monoSel (explicitHost exHost3 [3, 1, 2, 4]) (left exTW) =
+      [[(10, 3), (11, 1), (12, 2), (13, 6), (14, 5)], [(10, 3), (11, 1), (12, 2), (13, 7), (14, 5)]] ∧
+    (∀ m ∈ allMonos monoSel (explicitHost exHost3 [3, 1, 2, 4]) (left exTW),
+      ¬ RematchCovers (explicitHost exHost3 [3, 1, 2, 4]) m ∧
+      imbalance (glue (explicitHost exHost3 [3, 1, 2, 4]) exTW m) = (4, 0, true) ∧
+      specB (glue (explicitHost exHost3 [3, 1, 2, 4]) exTW m) = false) := by decide
 
 end SynKit.Reactor
